@@ -103,10 +103,15 @@ inline void parse_arguments(frg::string_view cmdline, std::ranges::range auto ar
 		bool quoted = false;
 
 		if(opening_quote < spc) {
-			quoted = true;
-
-			closing_quote = opening_quote + 1 + cmdline.sub_string(opening_quote + 1, cmdline.size() - opening_quote - 1).find_first('\"');
-			spc = closing_quote + 1 + cmdline.sub_string(closing_quote + 1, cmdline.size() - closing_quote - 1).find_first(' ');
+			// Only a quote that is closed again quotes anything.
+			size_t close = cmdline.sub_string(opening_quote + 1, cmdline.size() - opening_quote - 1).find_first('\"');
+			if(close != size_t(-1)) {
+				quoted = true;
+				closing_quote = opening_quote + 1 + close;
+				size_t after = cmdline.sub_string(closing_quote + 1, cmdline.size() - closing_quote - 1).find_first(' ');
+				// Without a space behind it, the closing quote itself ends the argument.
+				spc = after != size_t(-1) ? closing_quote + 1 + after : closing_quote;
+			}
 		}
 
 		size_t split_on = spc;
